@@ -11,14 +11,15 @@ M("ret-pinned-return-checkpoint", "main.py",
                 message=istate.task_str,
                 x=x,
                 success=istate.is_success,
+                scaling_factor=sf.scaling_factor,
                 hess_inv=LbfgsInvHessProduct(
                     checkpoint.hess_inv.sk[-maxcor:], checkpoint.hess_inv.yk[-maxcor:]
                 ),
             )
 """, "            return checkpoint\n", ["RET"], canary=True, note="pinned defect 5")
 M("ret-stale-message", "main.py",
-  "                message=istate.task_str,\n                x=x,\n                success=istate.is_success,\n                hess_inv=LbfgsInvHessProduct(\n                    checkpoint.hess_inv.sk",
-  "                message=checkpoint.message,\n                x=x,\n                success=istate.is_success,\n                hess_inv=LbfgsInvHessProduct(\n                    checkpoint.hess_inv.sk",
+  "                message=istate.task_str,\n                x=x,\n                success=istate.is_success,\n                scaling_factor=sf.scaling_factor,\n                hess_inv=LbfgsInvHessProduct(\n                    checkpoint.hess_inv.sk",
+  "                message=checkpoint.message,\n                x=x,\n                success=istate.is_success,\n                scaling_factor=sf.scaling_factor,\n                hess_inv=LbfgsInvHessProduct(\n                    checkpoint.hess_inv.sk",
   ["RET"])
 M("ret-njev-from-nfev-final", "main.py",
   "    return OptimizeResult(\n        fun=f0,\n        jac=grad,\n        nfev=sf.nfev,\n        njev=sf.ngev,\n",
